@@ -164,6 +164,14 @@ func destAddr(id *identity, kind string, key int) string {
 			ev.HarnessError("foreign taproot key")
 		}
 		a, err = refaddr.EncodeSegwit(hrp, 1, x)
+	case "f-wit2":
+		a, err = refaddr.EncodeSegwit(hrp, 2, h)
+	case "f-wit16-short":
+		a, err = refaddr.EncodeSegwit(hrp, 16, h[:2])
+	case "f-wit16-long":
+		a, err = refaddr.EncodeSegwit(hrp, 16, append(append([]byte{}, h...), h[:8]...))
+	case "f-wit15":
+		a, err = refaddr.EncodeSegwit(hrp, 15, h[:20])
 	default:
 		ev.HarnessError("unknown destination kind %q", kind)
 	}
